@@ -81,6 +81,7 @@ FLAGSETS = {
                            out="both", oc=True),
     # protobuf
     "proto-flat": dict(kind="proto", flags=["-generate_fakeroot"], out="proto"),
+    "proto-flat-nodedup": dict(kind="proto", flags=["-generate_fakeroot", "-skip_enum_deduplication"], out="proto"),
     "proto-hier": dict(kind="proto", flags=["-generate_fakeroot", "-package_hierarchy", "-base_import_path=example.com/proto",
                                             "-go_package_base=example.com/proto"], out="proto"),
     "proto-compress": dict(kind="proto", flags=["-generate_fakeroot", "-compress_paths"], out="proto", oc=True),
@@ -397,7 +398,8 @@ def plan(r, work, tier, seed):
         vt, vtoc, vtsub = hs
         byid = {s["id"]: s for s in cs}
         fixed = [(vt, "U-simple"), (vt, "U-wrapper"), (vt, "proto-flat"), (vtoc, "C-prefcfg-split"), (vtoc, "P-module"),
-                 (vtoc, "proto-compress-hier-nodedup"), (vtsub, "U-simple"), (vtsub, "U-simple-split")]
+                 (vtoc, "proto-compress-hier-nodedup"), (vtsub, "U-simple"), (vtsub, "U-simple-split"),
+                 (vt, "U-enumflags-nodedup"), (vt, "proto-flat-nodedup")]
         cfgs += fixed
         # rotating corpus picks
         big = [x for x in ("schemaops-c", "schemaops-u", "it-uncompressed", "demo-interfaces", "demo-uncompressed", "demo-rib-bgp",
